@@ -32,8 +32,9 @@ def make_spec(stream, rng, edge_index=None):
                                   "seed": rng.randint(0, 10 ** 6)}
         opt["env"] = "chaotic"
         opt["env_seed"] = rng.randint(0, 10 ** 9)
-    elif stream in ("contended", "dynamic", "batch", "overlap"):
-        pairing = {"contended": None, "dynamic": "dynamic", "batch": "batch", "overlap": None}[stream]
+    elif stream in ("contended", "dynamic", "batch", "overlap", "dynamic-reuse"):
+        pairing = {"contended": None, "dynamic": "dynamic", "batch": "batch", "overlap": None,
+                   "dynamic-reuse": "dynamic"}[stream]
         spec = simgen.gen_spec(rng, pairing=pairing)
         # squeeze: few machines, observations close together, wide workflows
         if stream != "batch" or rng.random() < 0.5:
@@ -94,6 +95,46 @@ def make_spec(stream, rng, edge_index=None):
         spec["cold"] = {"capacity": hot, "rate": rng.choice([5, 10, 20])}
         if spec["scheduling"]["kind"] == "batch":
             spec["scheduling"] = {"kind": "batch", "partitions": 1, "min": 1, "split": None}
+    elif stream == "units":
+        # the same kind of configuration expressed in a coarser timestep unit
+        # (all times whole multiples of the unit, so the parsed values stay whole)
+        spec = simgen.gen_spec(rng)
+        unit = rng.choice(["minutes", 30, 60, 7, "hours"])
+        m = {"minutes": 60, "hours": 3600}.get(unit, unit)
+        for o in spec["observations"]:
+            o["start"] *= m
+            o["duration"] *= m
+            # bandwidths are multiplied by the unit: keep volume / bandwidth exact in floats
+            for e in o["workflow"]["edges"]:
+                e[2] = rng.choice([0, 8 * m, 16 * m])
+            for nd in o["workflow"]["nodes"]:
+                nd["comp"] *= m
+                if "task_data" in nd:
+                    nd["task_data"] *= m
+        spec["hot"]["capacity"] = int(sum(o["rate"] * o["duration"] for o in spec["observations"]) / 0.6) + 5
+        spec["cold"]["capacity"] = spec["hot"]["capacity"] + 5
+        spec["timestep"] = unit
+        spec["timestep_explicit"] = True
+    elif stream == "big":
+        spec = simgen.gen_spec(rng)
+        nm = rng.randint(11, 16)
+        spec["machines"] = [{"id": "m%d" % k, "flops": rng.choice([4, 5, 8, 10, 20]), "bw": rng.choice([1, 2, 4, 8])}
+                            for k in range(nm)]
+        spec["max_ingest"] = rng.randint(2, nm)
+        speeds = [mm["flops"] for mm in spec["machines"]]
+        for o in spec["observations"]:
+            o["ingest_demand"] = rng.randint(1, min(spec["max_ingest"], 6))
+            o["workflow"] = simgen.gen_workflow(rng, 8, speeds)
+            if rng.random() < 0.5:
+                for nd in o["workflow"]["nodes"]:
+                    nd["task_data"] = rng.choice([0, 4, 16, 40, 64])     # data-bound tasks
+        if spec["scheduling"]["kind"] == "batch":
+            parts = rng.randint(1, 4)
+            spec["scheduling"] = {"kind": "batch", "partitions": parts, "min": rng.randint(1, max(1, nm // parts)), "split": None}
+        if spec.get("delay") and "prob" in spec["delay"]:
+            for o in spec["observations"]:
+                for nd in o["workflow"]["nodes"]:
+                    nd["comp"] = max(nd["comp"], max(speeds))
     elif stream == "hotwait":
         # an observation falls due while the hot buffer has no room for it (the cluster
         # has): it has to wait for an earlier workflow to free its data, then starts
@@ -364,11 +405,17 @@ def run_case(job):
         if opt.get("replay"):
             rp = replay_mod.ModelReplay()
             listeners.append(rp)
+        shared = None
+        if stream == "dynamic-reuse":
+            # a first simulation with ANOTHER plan, driven through the same algorithm object
+            shared = {"share_sched": True}
+            first = dict(spec, static_seed=spec.get("static_seed", 0) + 7919)
+            runsim.run_spec(first, max_steps=600, shared=shared)
         env = None
         if opt["env"] == "chaotic":
             env = fakeenv.FakeEnv(rng=random.Random(opt["env_seed"]), policy="chaotic")
         bound = simgen.serial_bound(spec) if simgen.feasible(spec) else 300
-        rec = runsim.run_spec(spec, listeners=listeners, max_steps=4 * bound + 50, env=env)
+        rec = runsim.run_spec(spec, listeners=listeners, max_steps=min(4 * bound + 50, 6000), env=env, shared=shared)
         viol = []
         adversary = spec["scheduling"]["kind"] == "adversary"
         for v in rec.get("violations", []):
